@@ -102,12 +102,13 @@ UpdateHostSet_E(s, e) ==
 UpdateHostSet_R(s, e) == [applied |-> ~(e.client = "" \/ e.client # s.client \/ e.height <= s.hostH)]
 
 (* SetBridgeInfo as far as the oracle is concerned: an executor re-sends the bridge info with an L1 client id; once a  *)
-(* client id is bound it can be neither changed nor cleared (msg_server.go:SetBridgeInfo)                              *)
+(* client id is bound it can be neither changed nor cleared (msg_server.go:SetBridgeInfo).  e.oracle is the oracle flag  *)
+(* of the bridge config the message carries (the L1 proposer may switch it at any time with UpdateOracleConfig).        *)
 SetClient_G(s, e) ==
   [ valid       |-> ValidAddr(e.signer),
     executor    |-> IsExecutor(s, e.signer),
     bindingSame |-> s.client = "" \/ e.client = s.client ]
-SetClient_E(s, e) == [s EXCEPT !.client = e.client]
+SetClient_E(s, e) == [s EXCEPT !.client = e.client, !.enabled = e.oracle]     \* the relayed bridge config carries the L1 oracle flag: it follows the last accepted message
 SetClient_R(s, e) == [client |-> e.client]
 
 Guards(s, e) == CASE e.type = "UpdateOracle" -> UpdateOracle_G(s, e) [] e.type = "UpdateHostSet" -> UpdateHostSet_G(s, e) [] e.type = "SetClient" -> SetClient_G(s, e)
